@@ -131,6 +131,12 @@ impl Comp for NamesComp {
                 let file = match FileName::new(&unhex(t[4])) { Ok(n) => n, Err(_) => return "bad-arg".into() };
                 match c.extract_name_from_file(&file) { Some(b) => format!("some:{}", hex(b.as_bytes())), None => "none".into() }
             }
+            "extractp" => {
+                // extractp <hint> <prefix> <suffix> <full path>: extract_name_from_path — the file must lie in exactly the hint directory
+                let c = match cfg(t[1], t[2], t[3]) { Some(c) => c, None => return "bad-arg".into() };
+                let fp = match FilePath::new(&unhex(t[4])) { Ok(n) => n, Err(_) => return "bad-arg".into() };
+                match c.extract_name_from_path(&fp) { Some(b) => format!("some:{}", hex(b.as_bytes())), None => "none".into() }
+            }
             _ => match &mut self.v {
                 V::None => "no-value".into(),
                 V::FN(s) => edit(s, t),
@@ -233,10 +239,15 @@ pub fn generate(a: &Args) -> Vec<Vec<String>> {
         let name = rng.pick(&names).clone();
         let hint = *rng.pick(&hints);
         let mut file = p2.to_vec(); file.extend_from_slice(&name); file.extend_from_slice(s2);
+        // a file of another root: equal, byte-extension of the hint, nested below it, sibling, with redundant separators
+        let roots: [&[u8]; 7] = [b"/tmp/iceoryx2", b"/tmp/iceoryx2_b", b"/tmp/iceoryx2/sub", b"/tmp/ice", b"/tmp//iceoryx2/", b"/tmp/./iceoryx2", b"rel/dir"];
+        let mut full = rng.pick(&roots).to_vec(); full.push(b'/'); full.extend_from_slice(&file);
         cases.push(vec![
             "new filename 61".into(),
             format!("pathfor {} {} {} {}", hex(hint), hex(p1), hex(s1), hex(&name)),
             format!("extract {} {} {} {}", hex(hint), hex(p1), hex(s1), hex(&file)),
+            format!("extractp {} {} {} {}", hex(hint), hex(p1), hex(s1), hex(&full)),
+            format!("extractp {} {} {} {}", hex(hint), hex(p2), hex(s2), hex(&full)),
             format!("frompf {} {}", hex(&rbytes(&mut rng, 10)), hex(&name)),
             format!("svcname {}", hex(&rbytes(&mut rng, 10))),
             format!("nodename {}", hex(&rbytes(&mut rng, 10))),
